@@ -90,6 +90,10 @@ func Families(tier string, seed int64) []*spec.Program {
 		v := variant(base, fmt.Sprintf("f_multi_sel%d", i), "selection", "C01", "C12")
 		v.Config.Types = sel
 		v.Config.RequiredFields, v.Config.ComputedFields = base.Config.RequiredFields, base.Config.ComputedFields
+		// a path-form key rooted at a type that only some of these selections contain, through a field named like
+		// its message type: it addresses Gamma's occurrence, whether or not Gamma is selected
+		v.Config.SensitiveFields = []string{"Gamma.Leaf.Str"}
+		v.Config.ExcludeFields = []string{"Gamma.Leaf.Num"}
 		v.NoRun = true
 		out = append(out, v)
 	}
@@ -230,7 +234,7 @@ func Families(tier string, seed int64) []*spec.Program {
 	// ---- C15: declaration order
 	orderBases := []*spec.Program{base, flagsP}
 	for _, a := range Atlas() {
-		if a.ID == "a_oneof" || a.ID == "a_embed" || (thorough && (a.ID == "a_msgs" || a.ID == "a_temporal" || a.ID == "a_names")) {
+		if a.ID == "a_oneof" || a.ID == "a_embed" || a.ID == "a_embedncustom" || (thorough && (a.ID == "a_msgs" || a.ID == "a_temporal" || a.ID == "a_names")) {
 			orderBases = append(orderBases, a)
 		}
 	}
@@ -244,10 +248,24 @@ func Families(tier string, seed int64) []*spec.Program {
 		if thorough {
 			np = 5
 		}
-		for i := 1; i <= np; i++ {
+		for i := 0; i <= np; i++ {
 			pr := newPrng(r.u64())
 			v := variant(b, fmt.Sprintf("%s_ord%d", b.ID, i), "order-unsorted", "C15")
-			permuteSpec(&v.Spec, pr)
+			if i == 0 {
+				// the reversal of every field list and of the message list (deterministic: every pair of fields swaps)
+				for mi := range v.Spec.Messages {
+					fs := v.Spec.Messages[mi].Fields
+					for a, z := 0, len(fs)-1; a < z; a, z = a+1, z-1 {
+						fs[a], fs[z] = fs[z], fs[a]
+					}
+				}
+				ms := v.Spec.Messages
+				for a, z := 0, len(ms)-1; a < z; a, z = a+1, z-1 {
+					ms[a], ms[z] = ms[z], ms[a]
+				}
+			} else {
+				permuteSpec(&v.Spec, pr)
+			}
 			out = append(out, v)
 			w := variant(s0, fmt.Sprintf("%s_sord%d", b.ID, i), "order-sorted", "C15")
 			w.Family = b.ID
@@ -270,6 +288,10 @@ func Families(tier string, seed int64) []*spec.Program {
 		cb.Config.ComputedFields = []string{"Beta.Count", "Alpha.M1.Name"}
 		cb.Config.Sort = true
 		cb.Config.DurationCustomType = "Duration"
+		// fields whose treatment depends on the custom duration type (the decoy value in the file must lose)
+		if m := cb.Spec.MsgByName("Beta"); m != nil {
+			m.Fields = append(m.Fields, spec.Field{Name: "Ttl", Type: "int64", CastType: "Duration", Num: 60}, spec.Field{Name: "Grace", Type: "int64", CastType: "LeaseDuration", Num: 61})
+		}
 		cb.NoRun = true
 		out = append(out, cb)
 		dual := []string{"types", "exclude_fields", "computed_fields", "required_fields", "sensitive", "custom_duration", "sort"}
